@@ -176,10 +176,15 @@ def coq_makefile():
         sh(["coq_makefile", "-f", "_CoqProject", "-o", "Makefile"], cwd=COQ)
 
 
-def coq_make(targets, timeout=3000):
-    """Full .vo build of the given targets (never -vos/-vok). Returns (ok, output)."""
+def coq_make(targets, timeout=1500):
+    """Full .vo build of the given targets (never -vos/-vok). Returns (ok, output).
+    A proof that no longer terminates in time (e.g. after a generated constant changed) counts as failed."""
     coq_makefile()
-    p = sh(["make", "-j%d" % NCPU] + list(targets), cwd=COQ, check=False, timeout=timeout)
+    try:
+        p = sh(["make", "-j%d" % NCPU] + list(targets), cwd=COQ, check=False, timeout=timeout)
+    except subprocess.TimeoutExpired:
+        sh("pkill -f 'coqc.*-Q . V' || true", check=False)
+        return False, "make %s: timed out after %ss" % (" ".join(targets), timeout)
     return p.returncode == 0, (p.stdout + p.stderr)
 
 
